@@ -120,6 +120,42 @@ def value_size_table(P, fn, depth=0):
         t = size_table(v, s)
         if len(t) >= 5 and (best is None or len(t) > len(best)):
             best = t
+    if best is None:
+        # the same table as an if / else-if chain: `if (t == A || t == B) size = 4; else if (t == C) size = 8; ...`
+        cz = Canon(v, inline=False)
+        rows = {}
+        for s_ in v.body.walk():
+            if s_.k != "IfStmt":
+                continue
+            kids = [x for x in s_.c if x is not None]
+            labs = []
+
+            def leaves(c_):
+                c_ = c_.strip()
+                if c_.k == "BinaryOperator" and c_.op == "||":
+                    leaves(c_.c[0])
+                    leaves(c_.c[1])
+                elif c_.k == "BinaryOperator" and c_.op == "==":
+                    for side in c_.c:
+                        x_ = side.strip_casts()
+                        if x_.k == "DeclRefExpr" and x_.get("dk") == "enum" and x_.name.startswith("CARQUET_PHYSICAL_"):
+                            labs.append(x_.name)
+                else:
+                    labs.append(None)
+            leaves(kids[0])
+            if not labs or None in labs:
+                continue
+            val = None
+            # only the then-branch proper (an else-if chain hangs off kids[2])
+            for x in kids[1].walk():
+                if is_assign(x) and x.op == "=" and "size" in src(x.c[0]) and val is None:
+                    val = _size_expr(cz, x.c[1])
+            if val is not None:
+                for l_ in labs:
+                    rows.setdefault(l_, val)
+        if len(rows) >= 5:
+            best = rows
+            best.setdefault("default", 0)
     if best is not None or depth > 0:
         return best
     for c in fn.calls():
